@@ -1198,6 +1198,7 @@ carquet_status_t carquet_read_next_page(
         if (status != CARQUET_OK) {
             return status;
         }
+        reader->page_dense_read = 0;
     }
 
     /* Calculate how many values to return from the current page */
@@ -1207,11 +1208,27 @@ carquet_status_t carquet_read_next_page(
         to_copy = available;
     }
 
-    /* Copy values from decoded buffers */
+    /* Copy values from decoded buffers. Levels are stored per row, but the
+     * decoded values are dense: only rows whose definition level equals the
+     * maximum carry a value. Count the values belonging to the rows handed
+     * out by this call and keep a separate cursor into the value array. */
     size_t value_size = get_value_size(reader->type, reader->type_length);
-    size_t offset = (size_t)reader->page_values_read * value_size;
+    int32_t dense_to_copy = to_copy;
+    if (reader->max_def_level > 0) {
+        const int16_t* levels = reader->decoded_def_levels + reader->page_values_read;
+        dense_to_copy = 0;
+        for (int32_t i = 0; i < to_copy; i++) {
+            if (levels[i] == reader->max_def_level) {
+                dense_to_copy++;
+            }
+        }
+    }
+    size_t offset = (size_t)reader->page_dense_read * value_size;
 
-    memcpy(values, (uint8_t*)reader->decoded_values + offset, (size_t)to_copy * value_size);
+    if (dense_to_copy > 0) {
+        memcpy(values, (uint8_t*)reader->decoded_values + offset,
+               (size_t)dense_to_copy * value_size);
+    }
 
     if (def_levels) {
         memcpy(def_levels, reader->decoded_def_levels + reader->page_values_read,
@@ -1224,6 +1241,8 @@ carquet_status_t carquet_read_next_page(
 
     /* Update state */
     reader->page_values_read += to_copy;
+    reader->page_dense_read += dense_to_copy;
+    reader->last_dense_count = dense_to_copy;
     reader->values_remaining -= to_copy;
     *values_read = to_copy;
 
